@@ -7,7 +7,7 @@ wt=$(mktemp -d /tmp/wt_seedtest_XXXX); rmdir "$wt"
 git -C /repo worktree add -q "$wt" HEAD || exit 2
 if ! git -C "$wt" apply "$patch"; then echo "PATCH DOES NOT APPLY"; git -C /repo worktree remove --force "$wt"; exit 2; fi
 for p in "$@"; do
-  out=$(PYTHONPATH="$wt" ./check $p --tier ${VERIF_TIER:-quick} 2>&1); rc=$?
+  out=$(VERIF_EVIDENCE_DIR="$wt/.evidence" PYTHONPATH="$wt" ./check $p --tier ${VERIF_TIER:-quick} 2>&1); rc=$?
   echo "$p rc=$rc :: $(echo "$out" | grep -m1 '^VIOLATION' | cut -c1-160)"
   echo "$out" | grep -v '^KNOWN-FINDING' | grep -A1 '^VIOLATION' | tail -1 | cut -c1-300
 done
